@@ -346,7 +346,12 @@ def rule_choose_first(run):
     c18.rule_choose_first(run)  # saturation picks its bound with std.choose_first
 
 
-RULES = [rule_format, rule_ctor, rule_ctor_abs, rule_round, rule_sat, rule_siblings, rule_template_arg, rule_replacements, rule_castmatrix, rule_choose_first]
+def rule_views(run):
+    from ..rules import views
+    views.run_rule(run, "F-VIEW")   # resize of a std.Ref view slices a slice: offsets must accumulate
+
+
+RULES = [rule_format, rule_ctor, rule_ctor_abs, rule_round, rule_sat, rule_siblings, rule_template_arg, rule_replacements, rule_castmatrix, rule_choose_first, rule_views]
 LEVEL = "other"
 EXPLANATION = (
     "Fixed-point exactness is decided for the format algebra: + - * of both classes are interpreted abstractly over a "
